@@ -45,6 +45,8 @@ pub struct WorldCfg {
     pub non_utf8: bool,
     pub signed_wide: bool,
     pub projected_bias: bool,
+    /// template ids over the whole 16-bit range, chosen so that ids alias under bit masks
+    pub wide_ids: bool,
     /// widths that RFC reduced-size encoding allows but the library does not decode (5, 6, 7 ...)
     pub odd_widths: bool,
     pub max_records: usize,
@@ -289,7 +291,8 @@ impl<'a> World<'a> {
         let n = self.rng.urange(1, self.cfg.max_templates.max(1));
         let mut out: Vec<Tpl> = Vec::new();
         for _ in 0..n {
-            let id = 256 + self.rng.below(u64::from(self.cfg.id_space.max(1))) as u16;
+            let base: u16 = if self.cfg.wide_ids { *self.rng.pick(&[256u16, 512, 4352, 33024, 65024, 256]) } else { 256 };
+            let id = base.saturating_add((self.rng.below(u64::from(self.cfg.id_space.max(1))) as u16).min(65535 - base));
             if out.iter().any(|t| t.id == id) {
                 continue;
             }
